@@ -2694,4 +2694,21 @@ theorem teToAffine_field (P : TEProj F) (hz : P.z ≠ 0) : teToAffine P = .ok (t
 
 end field
 
+/-- over `Fp` the curve test of the Rust code is the textbook equation `a·x² + y² = 1 + d·x²·y²`
+    (in the shape the driver's verdict uses) -/
+theorem teIsOnCurve_fp {p : Nat} (E : TECfg (Fp p)) (P : TEAff (Fp p)) :
+    teIsOnCurve E P = true ↔
+      E.a * P.x * P.x + P.y * P.y = 1 + E.d * (P.x * P.x) * (P.y * P.y) := by
+  unfold teIsOnCurve
+  simp only [beq_iff_eq]
+  have e1 : P.y * P.y + P.x * P.x * E.a = E.a * P.x * P.x + P.y * P.y := by
+    apply Fp.ext'
+    simp only [Fp.add_val, Fp.mul_val, Nat.mod_add_mod, Nat.add_mod_mod, Nat.mul_mod_mod, Nat.mod_mul_mod]
+    ring_nf
+  have e2 : (1 : Fp p) + E.d * (P.x * P.x * (P.y * P.y)) = 1 + E.d * (P.x * P.x) * (P.y * P.y) := by
+    apply Fp.ext'
+    simp only [Fp.add_val, Fp.mul_val, Nat.mod_add_mod, Nat.add_mod_mod, Nat.mul_mod_mod, Nat.mod_mul_mod]
+    ring_nf
+  rw [e1, e2]
+
 end Ark.Bytes
